@@ -47,6 +47,7 @@ import os
 import struct
 import sys
 
+from lib import zbox
 from lib import core
 from lib.core import exc_name
 
@@ -94,7 +95,11 @@ def word_id(word):
     return int(w[1:])
 
 
-class StubLexicon(object):
+class _StubBase(object):
+    pass
+
+
+class StubLexicon(_StubBase):
     """table-driven lexicon: `t<id>` / `g<id>*` are the only words queries contain"""
 
     def __init__(self):
@@ -124,6 +129,23 @@ class StubLexicon(object):
 
     def get_word(self, wid):
         return str(wid)
+
+
+def make_lexicon(persistent):
+    """the stub lexicon; as a Persistent object when the index lives in a ZODB connection (its tables then follow
+    the transaction like everything else: an abort reloads them in place)"""
+    if not persistent:
+        return StubLexicon()
+    if "PStubLexicon" not in globals():
+        from persistent import Persistent
+
+        class PStubLexicon(Persistent, StubLexicon):
+            pass
+        PStubLexicon.__module__ = __name__
+        PStubLexicon.__qualname__ = "PStubLexicon"
+        globals()["PStubLexicon"] = PStubLexicon
+    return globals()["PStubLexicon"]()
+
 
 
 class Doc(object):
@@ -520,7 +542,33 @@ def gen(rng, tier, idx):
     if cutoff:
         cfg.append(["cfg", "cutoff", cutoff])
     cfg += tuned
-    return {"session": "score", "cfg": cfg, "cmds": cmds}
+    case = {"session": "score", "cfg": cfg, "cmds": cmds}
+    if not tuned and (kind == "cosine" or impl in ("c", "text")):
+        # 12% of these keep the index (and the stub lexicon) in a ZODB connection with commits and cache
+        # evictions in between (no aborts: the stub lexicon's tables are harness bookkeeping that later
+        # commands refer to; abort histories of text indexes are C09's and C03's)
+        case = zbox.sprinkle(rng, case, 0.12, aborts=False)
+        if zbox.is_zodb(case) and impl == "text":
+            # an abort forgets documents: a later TextIndex.reindex_doc of a forgotten id is spelled index_doc
+            known, saved, out = set(), set(), []
+            for c in case["cmds"]:
+                if c[0] == "txn":
+                    if c[1] == "commit":
+                        saved = set(known)
+                    else:
+                        known = set(saved)
+                elif c[0] == "index":
+                    known.add(c[1])
+                elif c[0] == "unindex":
+                    known.discard(c[1])
+                elif c[0] == "reset":
+                    known = set()
+                elif c[0] == "reindex" and c[1] not in known:
+                    c = ["index"] + list(c[1:])
+                    known.add(c[1])
+                out.append(c)
+            case["cmds"] = out
+    return case
 
 
 K1S = [0.5, 2.0, 2.0, 0.5, 3.75, 1.2]
@@ -631,7 +679,8 @@ def impl_run(hyp, case):
     from hypatia.text.cosineindex import CosineIndex
     cfg = cfgdict(case)
     fam = BTrees.family32 if cfg["fam"] == 32 else BTrees.family64
-    lex = StubLexicon()
+    zodb = zbox.is_zodb(case)
+    lex = make_lexicon(zodb)
     if cfg["kind"] == "cosine":
         inner = CosineIndex(lex, family=fam)
     elif cfg["impl"] in ("python", "textpy"):
@@ -643,11 +692,14 @@ def impl_run(hyp, case):
     if cfg.get("cutoff"):
         inner.DICT_CUTOFF = int(cfg["cutoff"])      # instance attribute: survives reset(), read by _add_wordinfo
     ti = TextIndex("text", lexicon=lex, index=inner, family=fam) if cfg["impl"] in ("text", "textpy") else None
+    box = zbox.ZBox({"idx": ti if ti is not None else inner, "lex": lex}) if zodb else None
     outs = []
     for c in case["cmds"]:
         op = c[0]
         try:
-            if op == "index":
+            if op == "txn":
+                outs.append(box.txn(c))
+            elif op == "index":
                 text = " ".join(map(str, c[2:]))
                 if ti is not None:
                     ti.index_doc(c[1], Doc(text))
@@ -673,9 +725,11 @@ def impl_run(hyp, case):
                 outs.append("ok")
             elif op == "lex":
                 (lex.term if c[1] == "t" else lex.glob)[c[2]] = list(c[3:])
+                lex._p_changed = True
                 outs.append("ok")
             elif op == "lexp":
                 lex.term[c[1]] = list(c[3:])
+                lex._p_changed = True
                 parts = [int(w[1:]) for w in c[2].split("_")]
                 if [w for i in parts for w in lex.term[i]] != list(c[3:]):
                     raise core.Infra("phrase table inconsistent in generated case")
@@ -711,6 +765,8 @@ def impl_run(hyp, case):
             raise
         except Exception as e:
             outs.append(exc_name(e))
+    if box is not None:
+        box.close()
     return outs
 
 
@@ -719,11 +775,24 @@ def impl_run(hyp, case):
 # ----------------------------------------------------------------------------
 def replay_tables(case):
     """(command index, table, term table, glob table) before each command"""
+    import copy
     table, terms, globs = {}, {}, {}
+    saved = ({}, {}, {})
     for i, c in enumerate(case["cmds"]):
         yield i, c, table, terms, globs
         op = c[0]
-        if op == "index":
+        if op == "txn":
+            if c[1] == "commit":
+                saved = copy.deepcopy((table, terms, globs))
+            else:
+                t2, m2, g2 = copy.deepcopy(saved)
+                table.clear()
+                table.update(t2)
+                terms.clear()
+                terms.update(m2)
+                globs.clear()
+                globs.update(g2)
+        elif op == "index":
             table[c[1]] = list(c[2:])
         elif op == "reindex" and c[1] in table:
             table[c[1]] = list(c[2:])
